@@ -26,7 +26,7 @@ func (c14) Components() ([]string, []string) { return serverComponents() }
 func (c14) Run(ctx *RunCtx) {
 	c := ctx.C
 	workspace := c.Bool("workspace")
-	w := NewJWorld(c, workspace)
+	w := NewJWorld(c, workspace, "formats")
 	policy := c.Choose("policy", numPolicies)
 	if c.Pct("exec-ok", 25) {
 		w.Env.Exec.VersionOK = true
